@@ -52,3 +52,111 @@ package protocol
 //@   attr safe off
 //@   token ready acquire recv:recvReadyChan consume call:handleMessage
 //@   loop 0 invariant !holds(ready)
+
+// C20: the version data generated for each supported version is of the kind that version's decoder
+// produces and carries exactly the requested network magic, diffusion mode, peer-sharing mode and
+// query flag (peer sharing false/true is the two-valued mode 0/1 from node-to-node version 13 on and
+// 0/2 in versions 11-12); every supported version of the requested side is present and no other.
+//@ spec func ntn13data(d VersionData, magic uint32, diff bool, ps bool, q bool) bool = dyn(d) == type(VersionDataNtN13andUp) &&
+//@     unbox(d, type(VersionDataNtN13andUp)).VersionDataNtN11to12.CborNetworkMagic == magic &&
+//@     unbox(d, type(VersionDataNtN13andUp)).VersionDataNtN11to12.CborInitiatorAndResponderDiffusionMode == diff &&
+//@     unbox(d, type(VersionDataNtN13andUp)).VersionDataNtN11to12.CborQuery == q &&
+//@     unbox(d, type(VersionDataNtN13andUp)).VersionDataNtN11to12.CborPeerSharing == ite(ps, uint(1), uint(0))
+//@ spec func ntn11data(d VersionData, magic uint32, diff bool, ps bool, q bool) bool = dyn(d) == type(VersionDataNtN11to12) &&
+//@     unbox(d, type(VersionDataNtN11to12)).CborNetworkMagic == magic &&
+//@     unbox(d, type(VersionDataNtN11to12)).CborInitiatorAndResponderDiffusionMode == diff &&
+//@     unbox(d, type(VersionDataNtN11to12)).CborQuery == q &&
+//@     unbox(d, type(VersionDataNtN11to12)).CborPeerSharing == ite(ps, uint(2), uint(0))
+//@ spec func ntn7data(d VersionData, magic uint32, diff bool) bool = dyn(d) == type(VersionDataNtN7to10) &&
+//@     unbox(d, type(VersionDataNtN7to10)).CborNetworkMagic == magic &&
+//@     unbox(d, type(VersionDataNtN7to10)).CborInitiatorAndResponderDiffusionMode == diff
+//@ spec func ntc15data(d VersionData, magic uint32, q bool) bool = dyn(d) == type(VersionDataNtC15andUp) &&
+//@     unbox(d, type(VersionDataNtC15andUp)).CborNetworkMagic == magic && unbox(d, type(VersionDataNtC15andUp)).CborQuery == q
+//@ spec func ntc9data(d VersionData, magic uint32) bool = dyn(d) == type(VersionDataNtC9to14) && uint32(unbox(d, type(VersionDataNtC9to14))) == magic
+
+//@ func GetProtocolVersionMapDMQNtN(networkMagic, diffusionMode, peerSharing, queryMode) (ret)
+//@   props C20
+//@   attr safe off
+//@   ensures data: forall v uint16 :: v in ret ==> v in dmqProtocolVersionsNtN && ntn13data(ret[v], networkMagic, diffusionMode, peerSharing, queryMode)
+//@   ensures complete: forall v uint16 :: v in dmqProtocolVersionsNtN ==> v in ret
+//@   loop 0 invariant ret != nil && forall v uint16 :: v in ret ==> v in dmqProtocolVersionsNtN && ntn13data(ret[v], networkMagic, diffusionMode, peerSharing, queryMode)
+//@   loop 0 invariant forall v uint16 :: visited[v] ==> v in ret
+
+//@ func GetProtocolVersionMapDMQNtC(networkMagic, queryMode) (ret)
+//@   props C20
+//@   attr safe off
+//@   ensures data: forall v uint16 :: v in ret ==> v in dmqProtocolVersionsNtC && ntc15data(ret[v], networkMagic, queryMode)
+//@   ensures complete: forall v uint16 :: v in dmqProtocolVersionsNtC ==> v in ret
+//@   loop 0 invariant ret != nil && forall v uint16 :: v in ret ==> v in dmqProtocolVersionsNtC && ntc15data(ret[v], networkMagic, queryMode)
+//@   loop 0 invariant forall v uint16 :: visited[v] ==> v in ret
+
+// The Cardano tables: node-to-client versions carry bit 15 (0x8000), node-to-node versions do not.
+//@ spec func cardanoData(ntc bool, v uint16, d VersionData, magic uint32, diff bool, ps bool, q bool) bool =
+//@     ite(ntc, v >= 32768 && ite(v >= 32783, ntc15data(d, magic, q), ntc9data(d, magic)),
+//@         v < 32768 && ite(v >= 13, ntn13data(d, magic, diff, ps, q), ite(v >= 11, ntn11data(d, magic, diff, ps, q), ntn7data(d, magic, diff))))
+//@ func GetProtocolVersionMap(protocolMode, networkMagic, diffusionMode, peerSharing, queryMode) (ret)
+//@   props C20
+//@   attr safe off
+//@   let ntc = protocolMode == ProtocolModeNodeToClient
+//@   ensures data: forall v uint16 :: v in ret ==> v in protocolVersions && cardanoData(ntc, v, ret[v], networkMagic, diffusionMode, peerSharing, queryMode)
+//@   ensures complete: forall v uint16 :: v in protocolVersions && (ntc <==> v >= 32768) ==> v in ret
+//@   loop 0 invariant ret != nil && forall v uint16 :: v in ret ==> v in protocolVersions && cardanoData(ntc, v, ret[v], networkMagic, diffusionMode, peerSharing, queryMode)
+//@   loop 0 invariant forall v uint16 :: visited[v] && (ntc <==> v >= 32768) ==> v in ret
+
+// C20: the version lists contain exactly the supported versions of their side, in ascending order.
+//@ func GetProtocolVersionsNtC() (versions)
+//@   props C20
+//@   ensures side: forall i int :: 0 <= i && i < len(versions) ==> versions[i] >= 32768 && versions[i] in protocolVersions
+//@   ensures sorted: forall i int, j int :: 0 <= i && i <= j && j < len(versions) ==> versions[i] <= versions[j]
+//@   ensures complete: forall v uint16 :: v in protocolVersions && v >= 32768 ==> exists i int :: 0 <= i && i < len(versions) && versions[i] == v
+//@   loop 0 invariant forall i int :: 0 <= i && i < len(versions) ==> versions[i] >= 32768 && versions[i] in protocolVersions
+//@   loop 0 invariant forall v uint16 :: visited[v] && v >= 32768 ==> exists i int :: 0 <= i && i < len(versions) && versions[i] == v
+//@ func GetProtocolVersionsNtN() (versions)
+//@   props C20
+//@   ensures side: forall i int :: 0 <= i && i < len(versions) ==> versions[i] < 32768 && versions[i] in protocolVersions
+//@   ensures sorted: forall i int, j int :: 0 <= i && i <= j && j < len(versions) ==> versions[i] <= versions[j]
+//@   ensures complete: forall v uint16 :: v in protocolVersions && v < 32768 ==> exists i int :: 0 <= i && i < len(versions) && versions[i] == v
+//@   loop 0 invariant forall i int :: 0 <= i && i < len(versions) ==> versions[i] < 32768 && versions[i] in protocolVersions
+//@   loop 0 invariant forall v uint16 :: visited[v] && v < 32768 ==> exists i int :: 0 <= i && i < len(versions) && versions[i] == v
+
+// C20: in the table of supported versions the eras a version enables form a prefix of
+// Shelley < Allegra < Mary < Alonzo < Babbage < Conway < Dijkstra, the set never shrinks as the
+// version number grows within one side (node-to-node below 0x8000, node-to-client from 0x8000),
+// and every version has a decoder for its version data. The package initialiser is straight-line
+// and input-free, so this postcondition is decided for the table as built.
+//@ func init()
+//@   props C20
+//@   attr safe off
+//@   requires first: !init$guard
+//@   ensures prefix: forall v uint16 :: v in protocolVersions ==>
+//@       (protocolVersions[v].EnableAllegraEra ==> protocolVersions[v].EnableShelleyEra) &&
+//@       (protocolVersions[v].EnableMaryEra ==> protocolVersions[v].EnableAllegraEra) &&
+//@       (protocolVersions[v].EnableAlonzoEra ==> protocolVersions[v].EnableMaryEra) &&
+//@       (protocolVersions[v].EnableBabbageEra ==> protocolVersions[v].EnableAlonzoEra) &&
+//@       (protocolVersions[v].EnableConwayEra ==> protocolVersions[v].EnableBabbageEra) &&
+//@       (protocolVersions[v].EnableDijkstraEra ==> protocolVersions[v].EnableConwayEra)
+//@   ensures monotone: forall v uint16, w uint16 :: v in protocolVersions && w in protocolVersions && v <= w && ((v >= 32768) <==> (w >= 32768)) ==>
+//@       (protocolVersions[v].EnableShelleyEra ==> protocolVersions[w].EnableShelleyEra) &&
+//@       (protocolVersions[v].EnableAllegraEra ==> protocolVersions[w].EnableAllegraEra) &&
+//@       (protocolVersions[v].EnableMaryEra ==> protocolVersions[w].EnableMaryEra) &&
+//@       (protocolVersions[v].EnableAlonzoEra ==> protocolVersions[w].EnableAlonzoEra) &&
+//@       (protocolVersions[v].EnableBabbageEra ==> protocolVersions[w].EnableBabbageEra) &&
+//@       (protocolVersions[v].EnableConwayEra ==> protocolVersions[w].EnableConwayEra) &&
+//@       (protocolVersions[v].EnableDijkstraEra ==> protocolVersions[w].EnableDijkstraEra)
+//@   ensures decoders: forall v uint16 :: v in protocolVersions ==> protocolVersions[v].NewVersionDataFromCborFunc != nil
+//@   ensures dmq: forall v uint16 :: (v in dmqProtocolVersionsNtC ==> v >= 4096 && v < 32768 && dmqProtocolVersionsNtC[v].NewVersionDataFromCborFunc != nil) &&
+//@       (v in dmqProtocolVersionsNtN ==> v < 4096 && dmqProtocolVersionsNtN[v].NewVersionDataFromCborFunc != nil)
+//@ func GetProtocolVersionsDMQNtC() (versions)
+//@   props C20
+//@   ensures side: forall i int :: 0 <= i && i < len(versions) ==> versions[i] in dmqProtocolVersionsNtC
+//@   ensures sorted: forall i int, j int :: 0 <= i && i <= j && j < len(versions) ==> versions[i] <= versions[j]
+//@   ensures complete: forall v uint16 :: v in dmqProtocolVersionsNtC ==> exists i int :: 0 <= i && i < len(versions) && versions[i] == v
+//@   loop 0 invariant forall i int :: 0 <= i && i < len(versions) ==> versions[i] in dmqProtocolVersionsNtC
+//@   loop 0 invariant forall v uint16 :: visited[v] ==> exists i int :: 0 <= i && i < len(versions) && versions[i] == v
+//@ func GetProtocolVersionsDMQNtN() (versions)
+//@   props C20
+//@   ensures side: forall i int :: 0 <= i && i < len(versions) ==> versions[i] in dmqProtocolVersionsNtN
+//@   ensures sorted: forall i int, j int :: 0 <= i && i <= j && j < len(versions) ==> versions[i] <= versions[j]
+//@   ensures complete: forall v uint16 :: v in dmqProtocolVersionsNtN ==> exists i int :: 0 <= i && i < len(versions) && versions[i] == v
+//@   loop 0 invariant forall i int :: 0 <= i && i < len(versions) ==> versions[i] in dmqProtocolVersionsNtN
+//@   loop 0 invariant forall v uint16 :: visited[v] ==> exists i int :: 0 <= i && i < len(versions) && versions[i] == v
